@@ -65,7 +65,10 @@ class Runs(Part):
             if case["pfail"] and att < 3 and srng.random() < case["pfail"]:
                 return srng.choice(list(jobrec.TRANSIENT))
             return "ok"
-        rec = jobrec.Rec(dim=dim, m=m, bounds=[[-2.0, 3.0]] * dim, script=script, mode="serial")
+        # design variables on a tiny absolute scale (SI units: metres for micro-structures, farads, ...): artap's design equality is an absolute
+        # 1e-10, so different designs may "coincide" -- the bookkeeping must not depend on the scale
+        box = srng.choice([[-2.0, 3.0], [-2.0, 3.0], [0.0, 4e-9], [1e6, 1e6 + 5.0]]) if alg_name in ("nsga2", "epsmoea") else [-2.0, 3.0]
+        rec = jobrec.Rec(dim=dim, m=m, bounds=[list(box) for _ in range(dim)], script=script, mode="serial")
         dynamic_registration(rec)
         if alg_name == "nsga2":
             from artap.algorithm_NSGAII import NSGAII as A
